@@ -172,13 +172,17 @@ def gen(seed, index, tier):
             p = rng.choice(URL_PROTOS)
             layers = rng.choice([1, 1, 1, 2, 3])
             style = rng.choice(["min", "all", "lower", "dots", "mixed"])
-        reqs.append({"sel": sel, "proto": p, "layers": layers, "style": style, "shape": shape})
+        rq = {"sel": sel, "proto": p, "layers": layers, "style": style, "shape": shape}
+        if proto.PROTOCOLS[p][1] in ("http", "wap") and rng.random() < 0.4:
+            # request headers a shortcut in front of the handlers might look at
+            rq["hdr"] = rng.randrange(len(HTTP_HEADERS))
+        reqs.append(rq)
     return {"requests": reqs, "handlers": rng.choice(["default", "full", "full"]),
             # (never a directory outside the scratch tree: a defect that creates files relative to the
             #  working directory must not litter the machine)
             "cwds": rng.sample(["outside", "root", "rootX", "S"], 2),
             "servertype": rng.choice(["ThreadingTCPServer", "ForkingTCPServer"]),
-            "outsideB": rng.choice(["different", "missing", "dir-instead"]),
+            "outsideB": rng.choice(["different", "missing", "dir-instead", "loop", "dangling"]),
             "sched_seed": rng.randrange(1 << 30)}
 
 
@@ -230,11 +234,22 @@ def _build_root(S):
     os.makedirs(os.path.join(root, "climbmap"))
     simfs.write_file(os.path.join(root, "climbmap", "gophermap"),
                      b"Links that leave the root\n0secret\t../../secret.txt\n1outside\t/../outside\n"
-                     b"0abs\t/../secret.txt\n0fine\tok.txt\n", sched.EPOCH - 5000)
+                     b"0abs\t/../secret.txt\n0fine\tok.txt\n0a url-like selector without a host\tURL:x\nhweb\tURL:http://example.org/\n"
+                     b"1sibling by prefix\tX/secret.txt\n", sched.EPOCH - 5000)
     simfs.write_file(os.path.join(root, "climbmap", "ok.txt"), b"ok\n", sched.EPOCH - 5000)
     simfs.real_utime(os.path.join(root, "climbmap"), (sched.EPOCH - 5000, sched.EPOCH - 5000))
     simfs.real_utime(root, (sched.EPOCH - 5000, sched.EPOCH - 5000))
     return root
+
+
+HTTP_HEADERS = [
+    b"If-Modified-Since: Sat, 01 Jan 2000 00:00:00 GMT\r\n",
+    b"If-Modified-Since: Fri, 01 Jan 2038 00:00:00 GMT\r\n",
+    b"If-None-Match: *\r\nIf-Modified-Since: Thu, 01 Jan 1970 00:00:00 GMT\r\n",
+    b"Range: bytes=0-15\r\n",
+    b"Accept: text/html, text/vnd.wap.wml\r\nX-Wap-Profile: p\r\n",
+    b"Host: sim.example.org\r\nAccept-Encoding: gzip\r\nIf-Unmodified-Since: Sat, 01 Jan 2000 00:00:00 GMT\r\n",
+]
 
 
 def _build_outside(S, variant):
@@ -246,6 +261,17 @@ def _build_outside(S, variant):
     secret = "TOP SECRET %s\n" % variant
     if variant == "missing":
         pass
+    elif variant == "loop":
+        # every decoy is a symbolic link to itself: looking at it fails with ELOOP instead of ENOENT
+        for d in (S, out, os.path.join(S, "rootX")):
+            for n in ("secret.txt", "inbox", "inner.zip", "secret.txt.abstract"):
+                os.symlink(n, os.path.join(d, n))
+        for n in ("evil.zip", "evil.pyg", "run.sh"):
+            os.symlink(n, os.path.join(out, n))
+    elif variant == "dangling":
+        for d in (S, out, os.path.join(S, "rootX")):
+            for n in ("secret.txt", "inbox", "inner.zip"):
+                os.symlink("/nonexistent/" + n, os.path.join(d, n))
     elif variant == "dir-instead":
         os.makedirs(os.path.join(S, "secret.txt"))
         os.makedirs(os.path.join(out, "secret.txt"))
@@ -253,6 +279,10 @@ def _build_outside(S, variant):
         simfs.write_file(os.path.join(S, "secret.txt"), secret.encode(), sched.EPOCH - 99)
         simfs.write_file(os.path.join(out, "secret.txt"), secret.encode(), sched.EPOCH - 99)
         simfs.write_file(os.path.join(S, "rootX", "secret.txt"), secret.encode(), sched.EPOCH - 99)
+        simfs.write_file(os.path.join(S, "rootX", "secret.txt.abstract"), ("abstract " + secret).encode(), sched.EPOCH - 99)
+        # what root + selector names when the selector does not start with a slash
+        simfs.write_file(os.path.join(S, "rootURL:x"), secret.encode(), sched.EPOCH - 99)
+        simfs.write_file(os.path.join(S, "rootURL:x.abstract"), ("abstract " + secret).encode(), sched.EPOCH - 99)
         with zipfile.ZipFile(os.path.join(out, "evil.zip"), "w") as z:
             z.writestr(zipfile.ZipInfo("x.txt", date_time=(2001, 9, 1, 12, 0, 0)), secret)
         simfs.write_file(os.path.join(out, "evil.pyg"), (c20.PYG.replace("hello from pyg", secret.strip())).encode(),
@@ -299,9 +329,12 @@ def _wire(rq, S):
         if not pathb.startswith(b"/"):
             pathb = b"/" + pathb
         m = b"HEAD" if p == "head" else b"GET"
-        return m + b" " + pathb + b" HTTP/1.0\r\n\r\n", tls, once
+        hdr = HTTP_HEADERS[rq["hdr"]] if rq.get("hdr") is not None else b""
+        return m + b" " + pathb + b" HTTP/1.0\r\n" + hdr + b"\r\n", tls, once
     if fam == "wap":
-        return b"GET /wap" + (pathb if pathb.startswith(b"/") else b"/" + pathb) + b" HTTP/1.0\r\n\r\n", tls, once
+        hdr = HTTP_HEADERS[rq["hdr"]] if rq.get("hdr") is not None else b""
+        return (b"GET /wap" + (pathb if pathb.startswith(b"/") else b"/" + pathb) + b" HTTP/1.0\r\n" + hdr + b"\r\n",
+                tls, once)
     if fam == "gemini":
         return b"gemini://sim.example.org" + (pathb if pathb.startswith(b"/") else b"/" + pathb) + b"\r\n", tls, once
     if fam == "spartan":
@@ -475,7 +508,13 @@ def execute(sc, tape=None):
                 counters["url_selector"] = counters.get("url_selector", 0) + 1
             elif _has_token(ns):
                 p = "http" if rq["proto"] == "head" else rq["proto"]
-                if not proto.is_not_found(p, ra[i]):
+                nf = proto.is_not_found(p, ra[i])
+                if not nf and proto.PROTOCOLS[p][1] == "http":
+                    # the request's headers made the WAP protocol answer: its not-found is a WML deck under
+                    # 'HTTP/1.0 200 Not Found'
+                    head = ra[i].partition(b"\r\n\r\n")[0]
+                    nf = b"vnd.wap.wml" in head and head.split(b"\r\n", 1)[0].endswith(b" Not Found")
+                if not nf:
                     viol = {"oracle": "climbing-selector-not-found",
                             "signature": dict(sig, oracle="climbing-selector-not-found"),
                             "detail": "request %r via %s (server-side selector %r) answered %r" % (
